@@ -164,6 +164,29 @@ Theorem C03_ixor_interleaved_right_when_uuids_globally_distinct : forall s ir ar
   (forall u, lookup (fst (ixor_interleaved s ir args)) ir u = lookup (fst (ixor_twopass s ir args)) ir u).
 Proof. exact ixor_interleaved_eq_twopass. Qed.
 
+(* item / slice assignment and insert of the module list (elements = modules with their subtrees): the hooks run for the leavers
+   first, then for the enterers -- exact whenever the members AFTER the assignment carry pairwise distinct UUIDs; an enterer may
+   carry the UUIDs of an element that leaves (`ir.modules[i] = twin`), and one that another IR holds leaves that IR *)
+Theorem C03_list_assignment_with_twins : forall s ir new, Inv s -> NoDup new ->
+  (forall x, In x new -> NoDup (map fst (sub s x))) ->
+  NoDup (map fst (flat_map (sub s) new)) ->
+  Inv (fst (assign s ir new)) /\ snd (assign s ir new) = true /\
+  (forall x, In x (members (irs (fst (assign s ir new)) ir)) <-> In x new) /\
+  (forall ir' y, ir' <> ir -> (In y (members (irs (fst (assign s ir new)) ir')) <-> In y (members (irs s ir')) /\ ~ In y new)).
+Proof.
+  intros s ir new HI Hn Hs Hd. destruct (assign_inv s ir new HI Hn Hs Hd) as (A & B & C).
+  refine (conj A (conj B (conj C _))). intros ir' y Hne. exact (assign_other_irs_simple s ir ir' new HI Hne y).
+Qed.
+
+(* ... and the order of the hooks matters: the twin entering BEFORE its counterpart leaves loses the twin's table entries *)
+Example C03_list_assignment_order_matters :
+  (let s' := fst (discard (fst (add s6 1 2)) 1 1) in
+   members (irs s' 1) = [2] /\ lookup s' 1 100 = None /\ snd (discard s' 1 2) = false) /\
+  (Inv (fst (assign s6 1 [2])) /\ snd (assign s6 1 [2]) = true /\ members (irs (fst (assign s6 1 [2])) 1) = [2] /\
+   members (irs (fst (assign s6 1 [2])) 2) = [] /\ lookup (fst (assign s6 1 [2])) 1 100 = Some 2 /\
+   lookup (fst (assign s6 1 [2])) 1 101 = Some 12 /\ lookup (fst (assign s6 1 [2])) 2 100 = None).
+Proof. exact (conj assign_enter_first_wrong assign_twin_s6). Qed.
+
 (* non-vacuity: the twin exchange itself, on the state of the refutation, with the repaired operator *)
 Example C03_twin_example :
   run_ok (st0 subs6) [TAdd 1 1; TAdd 2 2; TIxor 1 [2; 1]; TDiscard 1 2; TAdd 2 1] /\
@@ -205,3 +228,5 @@ Print Assumptions Twin.C03_ixor_two_pass_exact.
 Print Assumptions Twin.C03_ixor_interleaved_refuted.
 Print Assumptions Twin.C03_ixor_interleaved_right_when_uuids_globally_distinct.
 Print Assumptions Twin.C03_twin_example.
+Print Assumptions Twin.C03_list_assignment_with_twins.
+Print Assumptions Twin.C03_list_assignment_order_matters.
